@@ -452,7 +452,7 @@ pub fn checks() -> Vec<CheckDef> {
             "cross-presentation",
             "states reached by honest histories (initial balances lattice/random, 0-2 payments): the stored pay token and closing signature are cross-presented — reference pairing check of each on the other's message, the pay token re-labelled as closing signature to check_close_signature with the close state sharing its fields, and (deep cases) the closing signature installed as pay token in a Ready image -> start -> allow_payment; oracle: the two messages differ exactly in slot 2, every cross-presentation is refused; distinct by case",
             &["cross/token-as-closing-signature/refused", "cross/closing-signature-as-pay-token/refused"],
-            (48, 1500),
+            (48, 4000),
             cross_strategy,
             cross_oracle,
         ),
